@@ -8,7 +8,7 @@ def run(tier, replay=None):
         rej = DC.validate(c, "C09", replay)
         if rej: DC.report(c, "C09", rej)
         return c.finish()
-    decls = DC.declarations(c, tier, with_encoded_as=False)
+    decls = DC.declarations(c, tier, with_encoded_as=True, for_codec=False)
     for docs in (False, True):
         tag = "_docs" if docs else "_nodocs"
         tr, failed = DC.observe(c, decls, False, 0, features=(("docs",) if docs else ()), tag=tag)
